@@ -83,14 +83,31 @@ func (w *World) doSetKeys(in Intent) {
 			return
 		}
 		extAddr = eip55(o.ExtAddr(chain))
-	case "steal_ext_key": // … or even with the right key (one operator, two validators)
+	case "steal_ext_key": // … or even with the right key (one operator, two validators): the victim's CURRENT address
 		o := w.val(in.Pick)
-		k2, ok := o.ExtKey[chain]
-		if !ok {
-			return
+		cur, ok := w.keyModelOf(chain).valExt[o.Oper.ValAddr().String()]
+		k2 := w.extKeyByAddr[cur]
+		if !ok || k2 == nil {
+			k2, ok = o.ExtKey[chain]
+			if !ok {
+				return
+			}
 		}
 		signKey = k2
 		extAddr = eip55(ext.KeyAddr(k2))
+	case "xchain": // the validator's key of ANOTHER chain is registered here too (allowed: the registry is per chain)
+		if in.V >= 100 {
+			return
+		}
+		v := w.val(in.V)
+		other := Chains[in.Pick%len(Chains)]
+		k2, ok := v.ExtKey[other]
+		if !ok || other == chain {
+			return
+		}
+		key, signKey = k2, k2
+		extAddr = eip55(ext.KeyAddr(k2))
+		orch = hub.NewAccount(fmt.Sprintf("orch-%s-x%s", label, other))
 	case "steal_orch":
 		o := w.val(in.Pick)
 		if oo, ok := o.Orch[chain]; ok {
@@ -150,6 +167,7 @@ func (w *World) doSetKeys(in Intent) {
 	if in.Op != "" && in.Op != "normal" && in.Op != "fresh" {
 		w.St.Fault("keys_" + in.Op)
 	}
+	w.extKeyByAddr[ext.KeyAddr(signKey)] = signKey
 	if w.lastKeyMsg == nil {
 		w.lastKeyMsg = map[string]*mhub2types.MsgDelegateKeys{}
 	}
